@@ -192,6 +192,22 @@ def execute_search(case):
         if ex.violation is not None:
             ex.stats = total.stats
             return ex, c, execs
+    # pass 1b: every line of functions that touch module-level mutable state
+    # (process-wide caches and counters), exhaustively up to a cap
+    gsteps = ex0.op_gsteps.get(target, [])[:150]
+    total.stats["enum_gstate_lines"] = total.stats.get("enum_gstate_lines", 0) + len(gsteps)
+    for k in gsteps:
+        c = dict(probe)
+        ops = [dict(o) for o in case["ops"]]
+        ops[target]["abort_at"] = k
+        c["ops"] = ops
+        ex = execute(c, ref_cache=ex0.ref_cache)
+        execs += 1
+        merge_stats(total.stats, ex.stats)
+        total.digest = (total.digest * 1000003 + ex.digest) % ((1 << 61) - 1)
+        if ex.violation is not None:
+            ex.stats = total.stats
+            return ex, c, execs
     # pass 2: every stride-th traced line (builder code included)
     stride = max(stride, nsteps // enum.get("max_execs", 150))
     total.stats["enum_stride_max"] = stride
